@@ -35,6 +35,21 @@ def parseTok (t : String) (maxBody : Nat) : Option BOp :=
     | 'E' => ((parseNat r).filter (· < maxBody)).map BOp.effect
     | 'I' => ((parseNat r).filter (· < maxBody)).map BOp.effect
     | 'v' => ((parseNat r).filter (· < maxBody)).map BOp.render
+    | 'V' => ((parseNat r).filter (· < maxBody)).map BOp.render
+    | 'j' => ((parseNat r).filter (· < maxBody)).map fun b => BOp.imm b false false
+    | 'J' => ((parseNat r).filter (· < maxBody)).map fun b => BOp.imm b true false
+    | 'q' => ((parseNat r).filter (· < maxBody)).map fun b => BOp.imm b false true
+    | 'Q' => ((parseNat r).filter (· < maxBody)).map fun b => BOp.imm b false false
+    | 'k' => ((parseNat r).filter (· < maxBody)).map fun b => BOp.spawn b false
+    | 'K' => ((parseNat r).filter (· < maxBody)).map fun b => BOp.spawn b true
+    | 'f' => ((parseNat r).filter (· < maxBody)).map fun b => BOp.spawn b false
+    | 'z' =>
+      match r.splitOn "." with
+      | [a, b] => do
+        let s ← parseNat a
+        let v ← (parseNat b).filter (· < 10)
+        pure (BOp.write s v)
+      | _ => none
     | 'a' => ((parseNat r).filter (· < maxBody)).map BOp.async
     | 'w' =>
       match r.splitOn "." with
@@ -129,6 +144,12 @@ def showEv : Ev → String
   | .t ty v => s!"T{ty}={showOpt v}"
   | .h e => s!"H{e}"
 
+/-- an effect's entry exists; for a scoped task: its future has not been dropped -/
+def effShown (st : St) (k : Nat) : Bool :=
+  match st.effs[k]? with
+  | some er => if er.kind.isTask then !er.done else effLive st k
+  | none => false
+
 /-- status of every retained handle, in the harness's order: items, signals, memos, effects, owners -/
 def statuses (st : St) : List (String × String) :=
   let items := (List.range st.items.length).map fun k =>
@@ -140,7 +161,7 @@ def statuses (st : St) : List (String × String) :=
       | some r => if sigLive st k then toString r.val else "x"
       | none => "x")
   let memos := (List.range st.memos.length).map fun k => (s!"m{k}", if memoLive st k then "l" else "x")
-  let effs := (List.range st.effs.length).map fun k => (s!"e{k}", if effLive st k then "l" else "x")
+  let effs := (List.range st.effs.length).map fun k => (s!"e{k}", if effShown st k then "l" else "x")
   let owners := (List.range st.hOwners.length).map fun k =>
     (s!"o{k}", match heldOwner st k with
       | some o => match st.owners[o]? with
@@ -151,13 +172,13 @@ def statuses (st : St) : List (String × String) :=
 
 def isRender (st : St) (k : Nat) : Bool :=
   match st.effs[k]? with
-  | some er => er.kind == EffKind.render
+  | some er => er.kind == EffKind.render || er.kind.isImm || er.kind.isTask
   | none => false
 
-/-- live retained *arena* handles (a `RenderEffect` is not an arena entry) -/
+/-- live retained *arena* handles (a `RenderEffect`, an `ImmediateEffect`, a task is not an arena entry) -/
 def liveCount (st : St) : Nat :=
   ((statuses st).filter fun (n, s) => !n.startsWith "o" && s != "x").length
-    - ((List.range st.effs.length).filter fun k => isRender st k && effLive st k).length
+    - ((List.range st.effs.length).filter fun k => isRender st k && effShown st k).length
 
 structure DSt where
   st : St := {}
@@ -177,7 +198,11 @@ def step (d : DSt) (line : String) : DSt × String :=
         match op with
         | .body _ => ({ d with st := st }, s!"b{st.bodies.length - 1}")
         | _ =>
-          let evs := (st.log.drop st0.log.length).map showEv
+          -- the closures the library registers for itself (abort handle, scoped effect) print nothing
+          let evs := ((st.log.drop st0.log.length).filter fun ev =>
+            match ev with
+            | .c tag _ _ _ => tag < 1000000000
+            | _ => true).map showEv
           let cur := statuses st
           let changes := cur.filter fun (n, s) => (d.prev.lookup n) != some s
           let verdict := if st.staleHit then "fail ctx-survives-cleanup"
